@@ -17,11 +17,11 @@ import (
 )
 
 type PropConfig struct {
-	Functions []string `json:"functions"`
-	Lemmas    []string `json:"lemmas"`
-	Sweep     []string `json:"sweep"`     // functions verified for safety only (no contract required)
-	Level     string   `json:"level"`     // proof
-	Notes     []string `json:"notes"`     // clauses not decided, printed in evidence
+	Functions []string          `json:"functions"`
+	Lemmas    []string          `json:"lemmas"`
+	Sweep     []string          `json:"sweep"`   // functions verified for safety only (no contract required)
+	Level     string            `json:"level"`   // proof
+	Notes     []string          `json:"notes"`   // clauses not decided, printed in evidence
 	Replays   map[string]string `json:"replays"` // function -> replay driver template
 }
 
